@@ -34,7 +34,7 @@ Next ==
   /\ l' = l + 1
   /\ LET e == Rec[l] IN
      \/ /\ e.ev = "reset" /\ m' = <<>>
-     \/ /\ e.ev = "step" /\ StepExplained(e) /\ m' = Step(m, e.op, {}).m
+     \/ /\ e.ev = "step" /\ StepExplained(e) = TRUE /\ m' = Step(m, e.op, {}).m
      \/ /\ e.ev = "failed" /\ e.k = "err" /\ Run(e.ops, {}) = ErrRun /\ m' = <<>>
 
 Spec == Init /\ [][Next]_vars
